@@ -96,14 +96,23 @@ def _light_checker(pdf, req_cols=None):
     return data
 
 
+LAST_WARNINGS = []      # messages of the warnings raised during the last run_pipeline() call
+
+
+class _Tee:
+    def __init__(self, log): self._log = log
+    def __iter__(self): return iter(self._log)
+
+
 def run_pipeline(df, prms, upto=3, stub_checker=False):
-    """Returns (outcome kind, chunk or exception, stage reached)."""
+    """Returns (outcome kind, chunk or exception, stage reached). The warnings raised are left in LAST_WARNINGS."""
     from ampycloud.data import CeiloChunk
     from ampycloud.utils import utils
     stage = 'init'
     orig = utils.check_data_consistency
-    try:
-        with WarningLog():
+    LAST_WARNINGS[:] = []
+    with WarningLog() as wl:
+        try:
             if stub_checker:
                 utils.check_data_consistency = _light_checker
             try:
@@ -119,11 +128,13 @@ def run_pipeline(df, prms, upto=3, stub_checker=False):
             if upto >= 3:
                 stage = 'find_layers'
                 ch.find_layers()
-        return 'ok', ch, stage
-    except core.EngineSignal:
-        raise
-    except Exception as e:  # noqa: BLE001
-        return type(e).__name__, e, stage
+            res = ('ok', ch, stage)
+        except core.EngineSignal:
+            raise
+        except Exception as e:  # noqa: BLE001
+            res = (type(e).__name__, e, stage)
+        LAST_WARNINGS[:] = wl.messages()
+    return res
 
 
 def inv_ids(E, ch, T, cl):
